@@ -45,12 +45,12 @@ def judge_snapshot(t: E.Tally, state, gwy, w, include_expired: bool, rep: dict, 
         verb, code = line[4:6], pkt.code
         if verb == "RQ" or (verb == " W" and code != "0404"):
             t.bad(f"C16:snapshot-holds-{verb.strip()}:{code}", f"{where}: snapshot contains {line!r}", rep)
-        if not include_expired and code != "313F":
+        if not include_expired:
             msg.__class__ = type(msg)  # (fresh message: its expiry is judged now, nothing cached)
             msg._gwy = gwy
             try:
                 if msg._expired:
-                    t.bad(f"C16:snapshot-holds-expired-packet", f"{where}: {dtm} {line[4:60]!r} is expired at {w.now().isoformat(timespec='seconds')} but include_expired=False", rep)
+                    t.bad("C16:snapshot-holds-expired-packet" + (":313F" if code == "313F" else ""), f"{where}: {dtm} {line[4:60]!r} is expired at {w.now().isoformat(timespec='seconds')} but include_expired=False", rep)
             except Exception:  # noqa: BLE001
                 pass
 
